@@ -887,8 +887,11 @@ class C14(Spec):
                   'a non-empty run of trailing blank lines of A, then for every B the block loop renders A followed by B exactly as it '
                   'renders A and then B from the session A left: same HTML, session and diagnostics; the premise is what the property calls '
                   '"A leaves no block open and does not end in a list"; proved through suffix-locality of every line-block and '
-                  'delimited-block function and of the list fixpoint). Whole documents through the API (reader splitting, the white space '
-                  'between the two outputs) are decided by the split-vs-joined oracle and correspondence on pairs and triples.')
+                  'delimited-block function and of the list fixpoint), C14_parts_equal_whole_text (the same at document.render with texts: '
+                  'render(A), then render(B), and render(A newline B) in one call give o, outB and o.outB with the same final session; the reader '
+                  'splits the joined text into the lines of A followed by those of B, and fuel monotonicity bridges the fuel left over). The '
+                  'API wrapper with option values, and documents whose last block reaches the end of A, are decided by the split-vs-joined '
+                  'oracle and correspondence on pairs and triples.')
     rule = ('pairs/triples of token-soup documents, A closed (checked by rendering A + sentinel paragraph); options on the first call only; '
             'HTML compared up to white space between tags, diagnostics as sets; non-trivial as usual')
     state_keys = None
